@@ -1523,6 +1523,193 @@ fn scenario_blocking_ask_vs_end(seed: u64) {
 }
 
 // ------------------------------------------------------------------------------------------------
+// The park/unpark executor behind blocking_ask(msg, None) (reached through the --cfg rsactor_verif hook
+// `__verif_block_on_parked`; the function itself is the shipped one) against adversarial wake-up timing. Through the public
+// API a reply arrives thousands of basic blocks after the caller parked, so the window "waker registered | thread parks" is
+// practically never met by a wake-up; here the wake-up sources are as close as they can be:
+//   * a hand-written future whose waker is taken and fired by spinning threads the moment it is registered, several rounds;
+//   * the futures the library really waits on (oneshot reply, mailbox `closed()`, their biased select) completed by a thread
+//     after a seeded number of spins;
+//   * legal noise: a stale unpark token before the call and spurious unparks of the calling thread during it.
+// Oracle: the call returns the future's own value, every time (a lost wake-up leaves every thread blocked: Miri's deadlock
+// verdict), and the future is never polled again after it was Ready.
+struct Slot {
+    waker: Mutex<Option<std::task::Waker>>,
+    fired: AtomicU64,
+    need: u64,
+    polled_after_ready: AtomicU64,
+    ready_seen: AtomicU64,
+    polls: AtomicU64,
+    /// the future gives up its time slice right after registering its waker (legal for a future; under Miri the
+    /// wakers then run before the poll returns, which puts the wake-up inside the executor's poll | park window)
+    yield_after_register: bool,
+}
+struct Adversary(Arc<Slot>, u64);
+impl std::future::Future for Adversary {
+    type Output = u64;
+    fn poll(self: std::pin::Pin<&mut Self>, cx: &mut std::task::Context<'_>) -> std::task::Poll<u64> {
+        let s = &self.0;
+        s.polls.fetch_add(1, Ordering::SeqCst);
+        if s.ready_seen.load(Ordering::SeqCst) != 0 {
+            s.polled_after_ready.fetch_add(1, Ordering::SeqCst);
+        }
+        if s.fired.load(Ordering::SeqCst) >= s.need {
+            s.ready_seen.store(1, Ordering::SeqCst);
+            return std::task::Poll::Ready(self.1);
+        }
+        *s.waker.lock().unwrap() = Some(cx.waker().clone());
+        // registered: from here on a wake-up may come at any instant, also before this poll returns
+        if s.yield_after_register {
+            std::thread::yield_now();
+        }
+        if s.fired.load(Ordering::SeqCst) >= s.need {
+            s.ready_seen.store(1, Ordering::SeqCst);
+            return std::task::Poll::Ready(self.1);
+        }
+        std::task::Poll::Pending
+    }
+}
+
+const STALL_TURNS: u64 = 20_000;
+fn scenario_parked_executor(seed: u64) {
+    let mut rng = Rng(seed);
+    let mut calls = 0u64;
+    let mut total_polls = 0u64;
+    // part 1: hand-written future, spinning wakers
+    for round in 0..3 + rng.below(3) {
+        let need = 1 + rng.below(6);
+        let slot = Arc::new(Slot { waker: Mutex::new(None), fired: AtomicU64::new(0), need, polled_after_ready: AtomicU64::new(0), ready_seen: AtomicU64::new(0), polls: AtomicU64::new(0), yield_after_register: rng.below(3) != 0 });
+        let n_wakers = 1 + rng.below(2);
+        let by_ref = rng.below(2) == 0;
+        let spurious = rng.below(3) == 0;
+        let stale_token = rng.below(3) == 0;
+        let caller = std::thread::current();
+        let done = Arc::new(AtomicU64::new(0));
+        let mut ths = Vec::new();
+        for _ in 0..n_wakers {
+            let slot = slot.clone();
+            ths.push(std::thread::spawn(move || {
+                // bounded liveness: after a wake-up the executor polls again within a bounded number of scheduler turns
+                // (every yield hands the processor to another thread, and the caller needs a few hundred basic blocks)
+                let mut idle = 0u64;
+                let mut last_polls = slot.polls.load(Ordering::SeqCst);
+                loop {
+                    if slot.fired.load(Ordering::SeqCst) >= slot.need {
+                        break;
+                    }
+                    let w = slot.waker.lock().unwrap().take();
+                    match w {
+                        Some(w) => {
+                            slot.fired.fetch_add(1, Ordering::SeqCst);
+                            if by_ref {
+                                w.wake_by_ref();
+                            } else {
+                                w.wake();
+                            }
+                            idle = 0;
+                        }
+                        None => {
+                            let p = slot.polls.load(Ordering::SeqCst);
+                            if p != last_polls {
+                                last_polls = p;
+                                idle = 0;
+                            } else {
+                                idle += 1;
+                                if idle > STALL_TURNS && slot.fired.load(Ordering::SeqCst) > 0 {
+                                    violation("C17", "executor-lost-wakeup", format!("the blocking executor did not poll its future again within {STALL_TURNS} scheduler turns of a wake-up ({} of {} wake-ups delivered, {p} polls): the wake-up was lost and the blocking call never returns", slot.fired.load(Ordering::SeqCst), slot.need));
+                                    std::process::exit(1);
+                                }
+                            }
+                            std::thread::yield_now();
+                        }
+                    }
+                }
+            }));
+        }
+        if spurious {
+            let done = done.clone();
+            let caller = caller.clone();
+            ths.push(std::thread::spawn(move || {
+                let mut k = 0;
+                while done.load(Ordering::SeqCst) == 0 && k < 40 {
+                    caller.unpark();
+                    std::thread::yield_now();
+                    k += 1;
+                }
+            }));
+        }
+        if stale_token {
+            std::thread::current().unpark();
+        }
+        let want = 7000 + round;
+        let got = rsactor::__verif_block_on_parked(Adversary(slot.clone(), want));
+        done.store(1, Ordering::SeqCst);
+        calls += 1;
+        if got != want {
+            violation("C17", "executor-wrong-value", format!("the blocking executor returned {got} for a future that completed with {want}"));
+        }
+        if slot.fired.load(Ordering::SeqCst) < need {
+            violation("C17", "executor-early-return", format!("the blocking executor returned before the future was ready ({} of {need} wake-ups)", slot.fired.load(Ordering::SeqCst)));
+        }
+        if slot.polled_after_ready.load(Ordering::SeqCst) != 0 {
+            violation("C17", "executor-polled-after-ready", "the blocking executor polled a future again after it had completed".to_string());
+        }
+        total_polls += slot.polls.load(Ordering::SeqCst);
+        for t in ths {
+            t.join().unwrap();
+        }
+    }
+    // part 2: the futures blocking_ask really waits on, completed from a thread after a seeded number of spins
+    for round in 0..3 + rng.below(3) {
+        let spins = rng.below(60);
+        let mode = rng.below(4);
+        let (tx, rx) = tokio::sync::oneshot::channel::<u64>();
+        let (mtx, mrx) = tokio::sync::mpsc::channel::<u64>(1);
+        let want = 8000 + round;
+        let t = std::thread::spawn(move || {
+            for _ in 0..spins {
+                std::thread::yield_now();
+            }
+            match mode {
+                0 => {
+                    let _ = tx.send(want);
+                    drop(mrx);
+                }
+                1 => {
+                    drop(mrx);
+                    drop(tx);
+                }
+                2 => {
+                    drop(tx);
+                    drop(mrx);
+                }
+                _ => {
+                    // reply, then the mailbox closes at once: the reply must win (biased select, reply first)
+                    let _ = tx.send(want);
+                    let mut mrx = mrx;
+                    mrx.close();
+                }
+            }
+        });
+        let got = rsactor::__verif_block_on_parked(async {
+            let mut rx = rx;
+            tokio::select! {
+                biased;
+                r = &mut rx => r.ok(),
+                _ = mtx.closed() => rx.try_recv().ok(),
+            }
+        });
+        calls += 1;
+        let expect = if mode == 0 || mode == 3 { Some(want) } else { None };
+        if got != expect {
+            violation("C17", "executor-wrong-value", format!("waiting for 'reply or mailbox closed' on the blocking executor returned {got:?}, expected {expect:?} (mode {mode})"));
+        }
+        t.join().unwrap();
+    }
+    ev(format!("parked-executor calls={calls} polls>={}", if total_polls >= calls { "calls" } else { "few" }));
+}
+
+// ------------------------------------------------------------------------------------------------
 // hang oracle self-test: a blocking_ask(None) on an actor gated shut forever must make Miri report
 // a deadlock (used only by the engine's self-test, never by a property check)
 fn scenario_selftest_hang(_seed: u64) {
@@ -1559,6 +1746,7 @@ fn main() {
         "timed_independent" => scenario_timed_independent(seed),
         "kill_busy_from_thread" => scenario_kill_busy_from_thread(seed),
         "blocking_ask_storm" => scenario_blocking_ask_storm(seed),
+        "parked_executor" => scenario_parked_executor(seed),
         "timed_blocking_vs_end" => scenario_timed_blocking_vs_end(seed),
         "metrics_mt" => scenario_metrics_mt(seed),
         "blocking_ask_vs_end" => scenario_blocking_ask_vs_end(seed),
